@@ -179,7 +179,7 @@ impl Property for P {
         };
         let normal = (gen::any_text(Mix::FULL, tier), gen::optspec(og.clone()))
             .prop_map(|(text, spec)| Case { text, spec });
-        let scaled = (gen::scaled_text_and_width(Mix::FULL, 1200), gen::optspec(og)).prop_map(
+        let scaled = (gen::scaled_text_and_width(Mix::FULL, 3000), gen::optspec(og)).prop_map(
             |((text, w), mut spec)| {
                 spec.width = w;
                 Case { text, spec }
